@@ -345,7 +345,8 @@ func evictedUnderOperation(threads [][]op, order []pass, f int) bool {
 				continue
 			}
 			for _, l := range lookups {
-				if l.t != v.t && l.from > fl.from && l.from < v.to {
+				// the re-load happens somewhere inside the other operation: after the flush began, before the close ended
+				if l.t != v.t && l.from >= 0 && l.to > fl.from && l.from < v.to {
 					return true
 				}
 			}
